@@ -25,7 +25,52 @@ def tracked(k):
 
 
 def project(fs):
-    return Facts({k: v for k, v in fs.items() if tracked(k) and v[0] == "in"})
+    return Facts({k: v for k, v in fs.items() if tracked(k) and v[0] == "in" and keep_vs(v)})
+
+
+TOP_KEYS = [("discr", ("field", SELF, "connectivity_state")), ("discr", ("field", SELF, "state")), ("discr", ("field", SELF, "gap_state"))]
+
+
+def atoms(fs, universe):
+    """expand a projected fact-set into atomic entries over the three top-level cells (sub-variant
+    facts are kept only when the top-level variant is a single value)"""
+    import itertools
+    choices = []
+    for k in TOP_KEYS:
+        vs = fs.get(k)
+        choices.append(sorted(vs[1]) if vs is not None else sorted(universe[k]))
+    out = []
+    for combo in itertools.product(*choices):
+        d = {k: ("in", frozenset([v])) for k, v in zip(TOP_KEYS, combo)}
+        single = all(fs.get(k) is not None and len(fs.get(k)[1]) == 1 for k in TOP_KEYS[1:2])
+        if single:
+            for k, vs in fs.items():
+                if k not in d and len(vs[1]) == 1:
+                    d[k] = vs
+        out.append(Facts(d))
+    return out
+
+
+# Facts that cross function boundaries in the station analysis: variants and flags of the control state.
+# (Dropping facts is always sound; this only bounds the number of contexts.)
+DROP_FIELDS = {"token_ring", "last_bus_activity", "pending_bytes", "p", "last_token_time", "end_token_hold_time",
+               "next_application", "collision_count", "rotation_count", "baudrate"}
+
+
+def keep_key(k):
+    if k[0] in ("cmp", "bin", "index", "cidx", "un", "cast", "len"):
+        return False
+    t = k[1] if k[0] == "discr" else k
+    # only the place spine counts (field chain from the root), not arguments of calls inside the term
+    while isinstance(t, tuple) and t and t[0] in ("field", "dc", "deref", "ref"):
+        if t[0] == "field" and t[2] in DROP_FIELDS:
+            return False
+        t = t[1]
+    return True
+
+
+def keep_vs(vs):
+    return all(isinstance(v, (str, bool)) for v in vs[1])
 
 
 _cache = {}
@@ -35,30 +80,44 @@ def station_analysis(P):
     """returns (interproc engine, invariant (set of Facts), entry function objects)"""
     if id(P) in _cache:
         return _cache[id(P)]
-    ip = Interproc(P, CR)
+    ip = Interproc(P, CR, keep_key=keep_key, max_disj=256)
     new = P.fn(CR, STATION + "::new")
     cx = ip.analyze(new, [Facts()])
+    universe = {
+        TOP_KEYS[0]: set(P.enum_variants(CR, "fdl::active::ConnectivityState")),
+        TOP_KEYS[1]: set(P.enum_variants(CR, "fdl::active::State")),
+        TOP_KEYS[2]: set(P.enum_variants(CR, "fdl::active::GapState")),
+    }
     inv = set()
     for ex in cx.exits:
         # facts about the returned value become facts about *self
         tr = ip.translate(ex, {("local", 0, None): SELF}, lambda l: l == ("arg", "self"))
         if tr is not None:
-            inv.add(project(tr))
-    muts = [P.fn(CR, STATION + "::" + n) for n in ("set_state", "set_online", "set_offline", "poll_inner")]
+            inv.update(atoms(project(tr), universe))
+    muts = [P.fn(CR, STATION + "::" + n) for n in ("set_state", "poll_inner")]
+    conn_vars = sorted(universe[TOP_KEYS[0]])
     work = list(inv)
     rounds = 0
-    while work and rounds < 400:
+    while work and rounds < 3000:
         rounds += 1
         e = work.pop()
+        runs = []
         for f in muts:
-            r = ip.analyze(f, [e])
+            if f.name.endswith("::set_state"):
+                # the requested connectivity state is an environment choice: one context per variant
+                for v in conn_vars:
+                    runs.append((f, e.add(("discr", ("arg", "state")), ("in", frozenset([v])))))
+            else:
+                runs.append((f, e))
+        for f, ent in runs:
+            r = ip.analyze(f, [ent])
             if r is None:
                 continue
             for ex in r.exits:
-                p = project(ex)
-                if p not in inv:
-                    inv.add(p)
-                    work.append(p)
+                for p in atoms(project(ex), universe):
+                    if p not in inv:
+                        inv.add(p)
+                        work.append(p)
     res = (ip, inv, muts)
     _cache[id(P)] = res
     return res
